@@ -224,12 +224,32 @@ def run(F, R, tier):
         ok = False
         det = ""
         line_ids = [p_["id"] for p_ in mk["hir"]["params"] if p_.get("k") == "bind" and p_.get("name") == "line"]
+        def from_widths(e, d=0):
+            """the count is 1 + the sum of the operand widths: computed in place, in a local, or by a helper of the file"""
+            e = H.strip(e)
+            if d > 3:
+                return False
+            if e.get("k") in ("call", "mcall") and e.get("callee") in F.fns and F.fns[e["callee"]]["file"] == mk["file"]:
+                hb = H.body_of(F.fns[e["callee"]])
+                tail = hb.get("expr") if hb.get("k") == "block" else hb
+                return from_widths_body(hb, tail)
+            return False
+
+        def from_widths_body(hb, tail):
+            t_ = H.render(hb)
+            tail = H.strip(tail) if tail is not None else {}
+            one = any(x.get("k") == "lit" and x.get("v") == 1 for x in H.walk(hb))
+            others = [x for x in H.walk(hb) if x.get("k") == "lit" and x.get("lk") == "int" and x.get("v") not in (0, 1)]
+            return "operand_widths" in t_ and one and not others and (H.is_local(tail) or tail.get("k") == "bin")
         for c in H.calls_to(H.unlet(H.body_of(mk)), r"Instructions::new$"):
             a = c["args"]
             det = H.render(a[1])
             v = H.strip(a[1])
             if v.get("k") == "call" and H.last(v.get("callee") or "") == "from_elem":
                 n_ = H.render(H.strip(v["args"][1]))
+                if H.local_id(H.strip(v["args"][0])) in line_ids and from_widths(v["args"][1]):
+                    ok = True
+                    break
                 # the count is the instruction's length: the running total of 1 + the operand widths, or the byte vector's own length
                 ok = H.local_id(H.strip(v["args"][0])) in line_ids and (n_ in ("instruction_len", "instruction.len()") or
                                                                          re.fullmatch(r"\(1 \+ def\.operand_widths\.iter\(\)\.sum\(\)\)", n_) is not None)
